@@ -28,7 +28,7 @@ RULE = (
     "graph (all nodes ancestors of the root; for two-output-node patterns: of one of two roots) with <=n nodes over the same alphabet "
     "and leaves {graph inputs a,b, scalar initializer c}, once per isomorphism class, x every assignment of {unused, graph output, "
     "consumed by an outside node} to its values for the patterns that match structurally.  quick: k<=2,b<=1 x n<=3; thorough: "
-    "k<=3 (b=0) x n<=3 and x n<=4 over leaf a, k<=2 b<=2 x n<=2, k<=2 b<=1 x n<=4 (leaves a,b: b=0).  Triples whose root "
+    "k<=3 (b=0) x n<=3 and x every 2nd rooted host with n<=4 over leaf a, k<=2 b<=2 x n<=2, k<=2 b<=1 x every 4th rooted host with n<=4 over leaf a, k<=2 b=0 x n<=4 over a,b.  Triples whose root "
     "operator differs from the pattern's root operator are run on the implementation for a deterministic 1/8 sample.  Every triple is "
     "run with check_nodes_are_removable False and (when a structural instance exists, else 1/64 sample on 4 variants) True, and patterns with Add "
     "additionally through RewriteRuleSet(commute=True).  random part (thorough): pattern/host pairs up to 8/20 nodes with a planted, "
@@ -43,18 +43,15 @@ ASSUMPTIONS = [
     "output / has a consumer outside the cone (observer nodes are Neg)",
     "constants are initializers (the answer must not depend on basic_constant_propagation having run)",
 ]
+# (the hot functions _match_node/_match_value/NodePattern.matches are deliberately not anchored: LINE events there
+# triple the cost of a run; their reach is implied by the impl_match / triples counters)
 ANCHORS = [
-    "onnxscript.rewriter._matcher:SimplePatternMatcher._match_node",
-    "onnxscript.rewriter._matcher:SimplePatternMatcher._match_value",
     "onnxscript.rewriter._matcher:SimplePatternMatcher._match_constant",
-    "onnxscript.rewriter._matcher:SimplePatternMatcher._match_node_output",
     "onnxscript.rewriter._matcher:SimplePatternMatcher._multi_match",
     "onnxscript.rewriter._matcher:_valid_to_replace",
-    "onnxscript.rewriter._pattern_ir:NodePattern.matches",
     "onnxscript.rewriter._pattern_ir:NodePattern.clone",
     "onnxscript.rewriter._pattern_ir:GraphPattern.commute",
     "onnxscript.rewriter._basics:MatchResult.merge_current_match",
-    "onnxscript.rewriter._basics:MatchResult.abandon_current_match",
 ]
 TIMEOUT = 900.0
 
@@ -96,12 +93,12 @@ def _plan(tier):
         plan += [
             ("t-core-abc", ("core", 2, 1, True), ("core", 3, ABC), 96),
             ("t-k3", ("core", 3, 0, False), ("core", 3, ABC), 192),
-            ("t-k3-n4", ("core", 3, 0, False), ("core", 4, A), 192),
+            ("t-k3-n4", ("core", 3, 0, False), ("core", 4, A), 384),  # sampled: chunks 0..191 of 384 = every 2nd cone
             ("t-b2", ("core", 2, 2, False), ("core", 2, ABC), 96),
-            ("t-n4", ("core", 2, 1, True), ("core", 4, A), 96),
+            ("t-n4", ("core", 2, 1, True), ("core", 4, A), 384),   # sampled: chunks 0..95 of 384 = every 4th cone
             ("t-n4-ab", ("core", 2, 0, False), ("core", 4, AB), 48),
             ("t-attr", ("attr", 2, 2, False), ("attr", 3, AB), 48),
-            ("t-pair", ("core", 3, 0, False), ("core", 3, A, "pair"), 96),
+            ("t-pair", ("core", 3, 0, False), ("core", 2, AB, "pair"), 96),
         ]
     return plan
 
@@ -114,7 +111,7 @@ RANDOM_PER_SPEC = 100
 def cases(tier, seed):
     out = []
     for name, pu, hu, n in _plan(tier):
-        for i in range(n):
+        for i in range({"t-n4": 96, "t-k3-n4": 192}.get(name, n)):
             out.append({"kind": "exh", "name": name, "pu": list(pu), "hu": list(hu), "chunk": i, "n": n, "seed": seed})
     for i0 in range(0, N_RANDOM[tier], RANDOM_PER_SPEC):
         out.append({"kind": "rand", "seed": seed, "i0": i0, "n": RANDOM_PER_SPEC})
